@@ -482,6 +482,30 @@ func init() {
 		return &Val{T: tp, Tuple: []*Val{{T: rt, S: res}, errV}}
 	}
 	models["net/http.NewRequestWithContext"] = newReq
+	// r.WithContext(ctx): a shallow copy of the request (same URL, Header, Body, ...) carrying the new context
+	models["(*net/http.Request).WithContext"] = func(u *Unit, st *State, x *ast.CallExpr, recv *Val, fn *types.Func) *Val {
+		u.trusted["model: (*http.Request).WithContext returns a shallow copy of the request (every field equal, new identity)"] = true
+		for _, a := range x.Args {
+			u.eval(st, a)
+		}
+		if recv == nil || recv.S == "" {
+			return u.freshVal(st, u.typeOf(x), "withctx")
+		}
+		old := u.loadStruct(st, recv.S, recv.T)
+		r := u.alloc(st)
+		u.storeStruct(st, r, recv.T, old)
+		// ghost fields attached to the request object travel with the copy
+		for name, gf := range u.eng.cs.GhostFields {
+			gp := u.eng.pkgByPath(gf.Pkg)
+			if gp == nil {
+				gp = u.pkg
+			}
+			srt := sortOf(u.resolveType(gp, gf.Type))
+			h := u.heapGet(st, "G!"+name, srt)
+			u.heapSet(st, "G!"+name, srt, app("store", h, r, app("select", h, recv.S)))
+		}
+		return &Val{T: recv.T, S: r}
+	}
 	models["net/http.NewRequest"] = newReq
 
 	// ---- fmt.Errorf / errors.New: fresh non-nil error with a message text and (for %w) a wrapped error
@@ -685,6 +709,18 @@ func init() {
 	}
 	getBacking := func(u *Unit, st *State, r string) string {
 		return app("select", u.heapGet(st, "G!backing", SInt), r)
+	}
+	models["io.Pipe"] = func(u *Unit, st *State, x *ast.CallExpr, _ *Val, fn *types.Func) *Val {
+		tp := u.typeOf(x).(*types.Tuple)
+		return &Val{T: tp, Tuple: []*Val{{T: tp.At(0).Type(), S: u.alloc(st)}, {T: tp.At(1).Type(), S: u.alloc(st)}}}
+	}
+	for _, n := range []string{"bytes.NewBuffer", "bytes.NewBufferString"} {
+		models[n] = func(u *Unit, st *State, x *ast.CallExpr, _ *Val, fn *types.Func) *Val {
+			for _, a := range x.Args {
+				u.eval(st, a)
+			}
+			return &Val{T: u.typeOf(x), S: u.alloc(st)} // a new, non-nil buffer
+		}
 	}
 	models["bytes.NewReader"] = func(u *Unit, st *State, x *ast.CallExpr, _ *Val, fn *types.Func) *Val {
 		u.trusted["model: bytes.NewReader / io.NopCloser / io.MultiReader create a fresh reader over the same content and the same backing memory"] = true
